@@ -182,8 +182,8 @@ impl Program {
 
 // ---- contexts ----------------------------------------------------------------------------------
 
-pub const CONTEXTS: [&str; 10] =
-    ["root", "root-after-marker", "block-value", "seq-entry", "block-key", "nested-seq-entry", "flow-seq-entry", "flow-map-value", "flow-key", "flow-root"];
+pub const CONTEXTS: [&str; 11] =
+    ["root", "root-after-marker", "block-value", "seq-entry", "block-key", "nested-seq-entry", "flow-seq-entry", "flow-map-value", "flow-key", "flow-root", "flow-map-key"];
 
 fn ctx_flow(c: usize) -> bool {
     c >= 6
@@ -220,7 +220,12 @@ fn wrap(c: usize, scalar: &str, style: ScalarStyle, value: &str) -> (String, Vec
             vec![Ev::MapStart(0, None), p("k"), Ev::MapStart(0, None), p("a"), me, p("b"), p("c"), Ev::MapEnd, Ev::MapEnd],
         ),
         8 => (format!("[{scalar}: v, w]\n"), vec![Ev::SeqStart(0, None), Ev::MapStart(0, None), me, p("v"), Ev::MapEnd, p("w"), Ev::SeqEnd]),
-        _ => (format!("[{scalar}]\n"), vec![Ev::SeqStart(0, None), me, Ev::SeqEnd]),
+        9 => (format!("[{scalar}]\n"), vec![Ev::SeqStart(0, None), me, Ev::SeqEnd]),
+        // an implicit key of a flow *mapping*: may span lines and has no length limit
+        _ => (
+            format!("k: {{{scalar}: v, b: c}}\n"),
+            vec![Ev::MapStart(0, None), p("k"), Ev::MapStart(0, None), me, p("v"), p("b"), p("c"), Ev::MapEnd, Ev::MapEnd],
+        ),
     };
     let mut evs = vec![Ev::StreamStart, Ev::DocStart(c == 1)];
     evs.extend(body);
@@ -296,6 +301,10 @@ pub fn sanitise(mut p: Program, ctx: usize) -> Option<Program> {
     // literal alphabets
     for a in atoms.iter_mut() {
         if let Atom::Lit(s) = a {
+            if single_line && s.chars().count() > 40 {
+                // implicit keys of block mappings and of single pairs in flow sequences: <= 1024 characters
+                *s = s.chars().take(40).collect();
+            }
             let cleaned: String = s
                 .chars()
                 .filter(|c| !matches!(c, ' ' | '\t' | '\n' | '\r' | '\0'))
@@ -407,6 +416,8 @@ fn lit_strategy() -> impl Strategy<Value = String> {
         1 => "\\PC{1,4}",
         // words made of the characters that are document markers / indicators at column 0 only
         1 => proptest::sample::select(vec!["---", "...", "--", "....", "---x", "-?-", "::", "-:-", "?-", ".-."]).prop_map(|t| t.to_string()),
+        // longer than the 1024-character limit of implicit keys (cut down again where that limit applies)
+        1 => (1000usize..1100, proptest::sample::select(vec!["k", "é", "ab"])).prop_map(|(n, u)| u.repeat(n / u.len())),
     ]
 }
 
